@@ -72,7 +72,7 @@ def write(path, text):
 @st.composite
 def renderings(draw, damage=True):
     # documents without any **kern spine are legitimate inputs as well (the converters then produce an empty file)
-    doc = draw(D.documents(D.profile('full', kern_weight=3, force_kern=draw(st.integers(0, 5)) > 0)))
+    doc = draw(D.documents(D.profile('full', kern_weight=3, hidden_bars=True, force_kern=draw(st.integers(0, 5)) > 0)))
     dmg = []
     if damage and draw(st.integers(0, 4)) == 0:
         cand = [(i, k) for i, k, c in S.cells(doc) if c['k'] in ('note', 'rest', 'chord', 'text', 'null')]
